@@ -119,7 +119,23 @@ func c02ScLate(c *c02Ctx, e *c02Env, do c02Doer, rt *c02Route, sc *c02Script) (o
 		return false, nil
 	}
 	p := c02Go(do, run, c02ReqOpt{})
-	if !p.wait(c02Patience) {
+	patience := c02Patience
+	if d := 20 * rt.Timeout; d > patience {
+		patience = d
+	}
+	if !p.wait(patience) {
+		// The route has a configured timeout d > 0, the handler is inside and has been
+		// waiting on ctx.Done() for max(20 d, 10 s): no deadline is being enforced at all.
+		// ("otherwise it receives the timeout response": there is nothing to wait for.)
+		if rt.Timeout > 0 && run.entered() == 1 && atomic.LoadInt32(&run.sawDone) == 0 {
+			atomic.AddInt64(&c02Hangs, 1)
+			c.violate(class+":no-deadline-enforced:"+rt.Label, run, nil,
+				"route %s is configured with timeout %v (%s) but %v after the request entered its handler ctx.Done() has not fired and the client has no response",
+				rt.Path, rt.Timeout, rt.Label, patience)
+			run.release()
+			p.wait(c02Watchdog)
+			return false, nil
+		}
 		// still nothing: open the gate so that the client is not left hanging for ever.
 		// If the handler had seen ctx.Done() it finished long after the deadline and the
 		// timeout response stays the only legal one (judged below); if the deadline
@@ -178,10 +194,10 @@ func c02ScLate(c *c02Ctx, e *c02Env, do c02Doer, rt *c02Route, sc *c02Script) (o
 			c.violate(class+":response-changed-after-timeout", run, after, "client's view changed after the late handler ran: before %s", resp.String())
 			return false, resp
 		}
-		for _, st := range sc.Steps {
-			if st.Op == "hdr" {
-				if got := after.Header.Values(st.K); len(got) > 0 && got[0] == st.V {
-					c.violate(class+":response-changed-after-timeout", run, after, "handler header %s appeared in the delivered timeout response after the late handler ran", st.K)
+		for _, h := range c02HandlerHeaderValues(sc) {
+			for _, got := range after.Header.Values(h[0]) {
+				if got == h[1] {
+					c.violate(class+":response-changed-after-timeout", run, after, "handler header %s appeared in the delivered timeout response after the late handler ran", h[0])
 					return false, resp
 				}
 			}
@@ -588,7 +604,7 @@ func c02ScMaxBytes(c *c02Ctx, e *c02Env, do c02Doer, rt *c02Route, length int, c
 		body[i] = byte('0' + i%10)
 	}
 	resp, _ := do(run, c02ReqOpt{body: body, hasBody: true, chunked: chunked})
-	over := !chunked && int64(length) > rt.MaxBytes
+	over := !chunked && rt.MaxBytes > 0 && int64(length) > rt.MaxBytes
 	if over {
 		if run.entered() > 0 {
 			c.violate(class+":entered-over-limit", run, resp, "Content-Length %d > MaxBytes %d but the handler ran", length, rt.MaxBytes)
